@@ -50,9 +50,11 @@ theorem addLineno_curBuf (s : AState) (d : Int) : (s.addLineno cfg d).curBuf = s
 /-- **matching a token conserves the total**: the counter advances by exactly the newlines of
     the text handed to the action (`headLen` bytes: trailing context is not consumed) -/
 theorem beginMatch_lnTotal (M : Matcher) (s : AState) (inp : List UInt8) (len rule : Nat) (p : List UInt8)
-    (h : s.HasCur) (hp : s.curBuf.pending = inp) :
+    (h : s.HasCur) (hp : s.curBuf.pending = inp)
+    (hfit : (cfg.yylmax != 0 && decide (p.length + len ≥ cfg.yylmax)) = false) :
     lnTotal (beginMatch M cfg s inp len rule p) = lnTotal s := by
   unfold lnTotal beginMatch
+  simp only [hfit, Bool.false_eq_true, if_false]
   simp only [AState.emit, AState.curBuf]
   have e1 := addLineno_lineno cfg hl hr
   have e2 := addLineno_curBuf cfg hl hr
